@@ -156,7 +156,11 @@ def run(ctx):
     si = p.method("BaseInterpreter", "_is_state_in")
     rets = [x for x in own_nodes(si.node) if isinstance(x, ast.Return)]
     pos = [x for x in rets if isinstance(x.value, ast.Constant) and x.value.value is True]
-    other = [x for x in rets if x not in pos and not (x.value is None or (isinstance(x.value, ast.Constant) and not x.value.value))]
+    def _any_over_active(v_):
+        return isinstance(v_, ast.Call) and isinstance(v_.func, ast.Name) and v_.func.id == "any" and v_.args and isinstance(v_.args[0], ast.GeneratorExp) and \
+            "_active_state_nodes" in norm(v_.args[0].generators[0].iter) and ".id" in norm(v_.args[0].elt)
+    anyrets = [x for x in rets if _any_over_active(x.value)]
+    other = [x for x in rets if x not in pos and x not in anyrets and not (x.value is None or (isinstance(x.value, ast.Constant) and not x.value.value))]
     c.ob("R10", not other, si, "only-true-or-false", "every verdict of stateIn is the constant True or a falsy constant" if not other else
          f"'{stmt_text(other[0])}' in _is_state_in is neither the positive verdict nor a falsy constant", (other or [si.node])[0])
     okp = False
@@ -167,6 +171,7 @@ def run(ctx):
             any(isinstance(a, ast.Compare) and pol and ".id" in norm(a) and isinstance(a.ops[0], ast.Eq) for a, pol in at)
         if lp and idtest and not any(isinstance(a, ast.Constant) for a, pol in at):
             okp = True
+    okp = okp or bool(anyrets)
     c.ob("R10", okp, si, "true-iff-an-active-id-matches", "stateIn answers True exactly for an active node whose id is (or ends with) the named state" if okp else
          "_is_state_in has no 'return True' left that is reached from the scan of the active configuration under the id test: stateIn is never "
          "(or unconditionally) true", si.node)
